@@ -509,6 +509,6 @@ func checkLevelDecision(c *km.Ctx, s *km.Sem, call *ssa.Call) {
 	}
 	// the only other results are the constant false (a refusal needs no licence)
 	if n == 0 {
-		c.R.AnchorLost("R-C01-2", "a return of "+d.Name()+" that can be true")
+		c.R.AnchorLost("R-C01-2", "a return of "+km.NameOf(d)+" that can be true")
 	}
 }
